@@ -17,7 +17,9 @@ RULE = ('resource trees built by the C11 generator (composite keys, '
         'snapshot.get the identical handle object as m.get, name sets per '
         'level must be equal, absent names must raise; then setattr/delattr '
         'of existing handle names, existing map names and new names on every '
-        'node must raise, and the whole comparison is repeated. Non-trivial '
+        'node must raise, and the whole comparison is repeated; last, the '
+        'same attempts through vars(snapshot) where a level has an instance '
+        'dictionary. Non-trivial '
         '= >=1 non-identifier name and depth>=2.')
 ANCHORS = [
     'desper/model/tree.py::ResourceMap.get_static_map',
@@ -40,7 +42,10 @@ NAMES = ['a', 'b', 'c', 'data', 'class', 'x y', 'a.b', 'a-b', '1a', 'é', '',
          'def', '_x', 'B', 'ключ', 'a b c',
          # identifiers whose NFKC form differs from them, next to that form
          '\ufb01le', 'file', '\u00b5m', '\u03bcm', '\u00aa', 'e\u0301cole',
-         '\uff21\uff22', 'AB']
+         '\uff21\uff22', 'AB',
+         # private-looking identifiers (name mangling applies to such names
+         # inside class bodies; they are not members of the snapshot)
+         '__x', '__secret', '_', '__']
 
 
 def gen_key(rng, names, maxdepth):
@@ -207,9 +212,40 @@ def run_case(case):
                 return False
         return True
 
+    def mutate_through_dict(live, snap, names):
+        """The same attempts through the instance dictionary, where the
+        snapshot has one (run last: a successful one alters the snapshot)."""
+        try:
+            d = vars(snap)
+        except TypeError:
+            d = None
+        if d is not None:
+            for name in sorted(live.handles.keys()) + ['brand_new']:
+                res.stats['dict_route_attempts'] += 1
+                for action in ('set', 'del'):
+                    try:
+                        if action == 'set':
+                            d[name] = 'intruder'
+                        elif name in d:
+                            del d[name]
+                        else:
+                            continue
+                    except Exception:
+                        continue
+                    return fail('mutation-through-dict', f'{action} of '
+                                f'attribute {name!r} through vars(snapshot) '
+                                f'at {"/".join(names)!r} was accepted',
+                                'raises', 'accepted')
+        for name in sorted(live.maps.keys()):
+            if not mutate_through_dict(live.maps[name], snap.get(name),
+                                       names + [name]):
+                return False
+        return True
+
     try:
-        if compare(root, static, [], 'fresh') and mutate(root, static, []):
-            compare(root, static, [], 'after mutation attempts')
+        if compare(root, static, [], 'fresh') and mutate(root, static, []) \
+                and compare(root, static, [], 'after mutation attempts'):
+            mutate_through_dict(root, static, [])
     except Exception as ex:
         res.div(0, 'harness-observed-exception', f'{type(ex).__name__}: {ex}',
                 'no exception', repr(ex))
@@ -221,4 +257,6 @@ def run_case(case):
 
 
 def classify(case, div):
+    if div['kind'] == 'mutation-through-dict':
+        return 'instance-dict-writable'
     return None
